@@ -36,6 +36,10 @@ LAYOUTS = {
     # has it, so the template record is synthetic: USER_PROCESS, id "ab12", pid 4321)
     "freebsd_x8664_utmpx": (280, 8, 8, 16, 8, [("ut_user", 36, 32), ("ut_line", 68, 16), ("ut_host", 84, 128)], "utmpx",
                             None, 0),
+    # Linux acct (version 0 records: no ac_version byte; same size as acct_v3) and NetBSD x86_32 lastlogx: no shipped
+    # file has these layouts, the template records are synthetic
+    "linux_x86_acct": (64, 8, 4, None, 0, [("ac_comm", 36, 17)], "pacct", None, None),
+    "netbsd_x8632_lastlogx": (428, 0, 8, 8, 4, [("ll_line", 12, 32), ("ll_host", 44, 256)], "lastlogx", None, None),
     "openbsd_x86_lastlog": (272, 0, 8, None, 0, [("ll_line", 8, 8), ("ll_host", 16, 256)], "lastlog",
                             "logs/OpenBSD7.4/x86_64/lastlog", None),
 }
@@ -49,6 +53,21 @@ def template(name):
         return _TEMPLATES[name]
     size = LAYOUTS[name][0]
     rel = LAYOUTS[name][7]
+    if rel is None and name == "linux_x86_acct":
+        r = bytearray(size)
+        r[0] = 2                                                   # ac_flag ASU
+        struct.pack_into("<HHH", r, 2, 1000, 1000, 0x8801)         # uid, gid, tty
+        struct.pack_into("<I", r, 8, 1_600_000_000)
+        struct.pack_into("<10H", r, 12, 1, 2, 3, 4, 5, 6, 7, 8, 9, 10)
+        r[36:38] = b"zc"
+        _TEMPLATES[name] = bytes(r)
+        return _TEMPLATES[name]
+    if rel is None and name == "netbsd_x8632_lastlogx":
+        r = bytearray(size)
+        struct.pack_into("<qi", r, 0, 1_600_000_000, 0)
+        r[12:14], r[44:46] = b"zl", b"zh"
+        _TEMPLATES[name] = bytes(r)
+        return _TEMPLATES[name]
     if rel is None:
         r = bytearray(size)
         struct.pack_into("<h", r, 0, 7)
